@@ -46,7 +46,7 @@ def _install_roles(ctx):
     """the allow-table is keyed by what a function *is* (located like the rules locate it), not by what it is called"""
     import rules_dir as _rd
     r = {}
-    r["role:rle"] = set(f["path"] for f in ctx.user_fns() if any(c["fn"].endswith("::last_mut") for c in calls(f["body"])) and ctx.has_struct(f, "directory::Entry"))
+    r["role:rle"] = set(f["path"] for f in ctx.rle_fns())
     r["role:dir_encoder"] = set(f["path"] for f in _rd.dir_encoders(ctx))
     r["role:dir_decoder"] = set(f["path"] for f in _rd.dir_decoders(ctx))
     r["role:tile_id"] = set(f["path"] for f in ctx.user_fns() if any("xy2h_discrete" in c["fn"] for c in calls(f["body"])))
